@@ -117,6 +117,8 @@ def build_one(name, source, std="c++17", compiler="g++", san="asan", extra=(), o
         cmd += SAN
     elif san == "tsan":
         cmd += ["-fsanitize=thread"]
+    elif san == "fuzz":
+        cmd += ["-fsanitize=fuzzer,address,undefined", "-fno-sanitize-recover=all", "-fno-omit-frame-pointer", "-DVF_FUZZ"]
     elif san == "ubsan":
         cmd += ["-fsanitize=undefined", "-fno-sanitize-recover=all"]
     elif san == "none":
